@@ -575,7 +575,7 @@ func TestVerifC14(t *testing.T) {
 		r.Expect(fmt.Sprintf("depth:%d", d))
 	}
 
-	n := r.N(110, 24000)
+	n := r.N(110, 4400)
 	r.Cases("int", n, func(i int, id string, rng *vk.Rand) {
 		s := &c14State{r: r, env: env, rng: rng, id: id, hi: map[uint64]uint{}, hist: map[string]bool{}}
 		// ---- bounds / depth / values
